@@ -475,7 +475,9 @@ def check(prop, tier, seed, only_event=None):
                 run.extra["model_fidelity"] = [{"error": str(ex)[:300]}]
         if p.get("sim"):
             run.extra["model_replay"] = {"generated": run.run_sim(p["sim"])}
-        run.run_traces(harness, harness_race, [tj for tj in p.get("traces", []) if not (tier == "quick" and tj.get("thorough_only"))])
+        only = [x for x in os.environ.get("VERIF_ONLY_JOBS", "").split(",") if x]   # development aid: restrict to some harness jobs
+        run.run_traces(harness, harness_race, [tj for tj in p.get("traces", []) if not (tier == "quick" and tj.get("thorough_only"))
+                                               and (not only or tj["job"] in only)])
         # report
         for fid, n in sorted(run.known_hits.items()):
             kf = [k for k in run.known if k["id"] == fid][0]
